@@ -1064,6 +1064,15 @@ fn resolve_text_macro_usage<T: AsRef<Path>, U: AsRef<Path>>(
                 }
             }
 
+            #[cfg(sv_parser_verif)]
+            {
+                let mut strs: Vec<&str> = vec![&text.text, &replaced];
+                for (k, v) in arg_map.iter() {
+                    strs.push(k);
+                    strs.push(v);
+                }
+                sv_parser_parser::verif::emit("subst", &[], &strs);
+            }
             if let Some(paren) = paren {
                 replaced.push_str(&paren);
             }
